@@ -347,7 +347,9 @@ func (e *Exec) Zero(t *Type) Term {
 		return Term{"A_nil", t}
 	case KSlice:
 		s := e.Sort(t)
-		arr := e.vc.FreshConst("zarr", fmt.Sprintf("(Array Int %s)", e.Sort(t.Elem)))
+		// one fixed (arbitrary) backing array per element sort: the zero slice is a single value
+		arr := "zarr!" + mangle(e.Sort(t.Elem))
+		e.vc.Decl("fun:"+arr, fmt.Sprintf("(declare-fun %s () (Array Int %s))", arr, e.Sort(t.Elem)))
 		return Term{fmt.Sprintf("(mk!%s %s 0)", s, arr), t}
 	case KStruct:
 		s := e.Sort(t)
